@@ -19,6 +19,8 @@ pub enum Op {
   PostSleeping(u32),
   /// (inside a task only) sleep 1 ms of virtual time
   SleepNow,
+  /// the posting thread pauses (virtual milliseconds)
+  Pause(u64),
   Abort,
 }
 
@@ -68,6 +70,7 @@ fn do_op(log: &L, op: &Op, sch: &NewThreadScheduler<'static>) {
       log.lock().unwrap().aborts.push((c, r));
     }
     Op::SleepNow => {}
+    Op::Pause(d) => thread::sleep(ms(*d)),
     Op::Post(id) | Op::PostPosting(id, _) | Op::PostAborting(id) | Op::PostSleeping(id) => {
       let inner = match op {
         Op::PostSleeping(_) => Some(Op::SleepNow),
@@ -97,7 +100,7 @@ fn all_tasks(h: &[Vec<Op>]) -> Vec<u32> {
         v.push(*a);
         v.push(*b)
       }
-      Op::Abort | Op::SleepNow => {}
+      Op::Abort | Op::SleepNow | Op::Pause(_) => {}
     }
   }
   v
@@ -252,6 +255,9 @@ pub fn scenarios() -> Vec<Scn> {
     history_scn("c08/M{post x20, abort} burst", vec![(1..=20).map(Post).chain(std::iter::once(Abort)).collect()], Some(1), Some(2)),
     // ... and one beyond the usual powers of two a back-log threshold might be set to (seed C09-h: a helper
     // worker once more than 1024 tasks are pending); default schedule + every single preemption in the thorough tier
+    // a long quiet period between two posts (an idle worker stays available: seed C09-i retires it after 1 s)
+    history_scn("c08/M{post a, pause 60 s, post b} no abort", vec![vec![Post(1), Pause(60_000), Post(2)]], Some(2), Some(3)),
+    history_scn("c08/M{post a, pause 60 s, post b, abort}", vec![vec![Post(1), Pause(60_000), Post(2), Pause(5), Abort]], Some(1), Some(2)),
     {
       // ... the first task asleep while the back-log builds up behind it
       let mut s = history_scn("c08/M{post a sleeps, post x1100} long burst behind a sleeping task", vec![std::iter::once(PostSleeping(1)).chain((2..=1101).map(Post)).collect()], Some(0), Some(1));
